@@ -4,7 +4,7 @@
     each group still in the list is empty, or has the caller's waker [t] registered as its most
     recent one with an empty ready queue or [t] invoked during this call ([K]).  Polling one
     group never disturbs this for the others (their waker blocks are distinct). *)
-From FB Require Import Base Syntax World SlotMap Fub Unbounded Ordered Adapters Step Tactics SlotMapProofs WorldProofs FubProofs UnboundedProofs WakeProofs AddrProofs GrowthProofs StepProofs Reach.
+From FB Require Import Base Syntax World SlotMap Fub Unbounded Ordered Adapters Step Tactics SlotMapProofs WorldProofs FubProofs UnboundedProofs OrderedProofs WakeProofs AddrProofs GrowthProofs StepProofs Reach.
 
 Definition K (b t : nat) (w : world) : Prop := J b t w /\ E b w.
 
@@ -494,9 +494,64 @@ Proof.
   destruct H0 as (A & B & C). apply fu_push_fold_nodup; auto.
 Qed.
 
+(** ** FuturesOrdered: the outer loop polls the inner FuturesUnordered until it has the next
+    output in order; when it gives up with Pending, the last inner poll returned Pending *)
+Lemma fo_rebase_blks q : blks (groups (fu_inner (fo_rebase P q))) = blks (groups (fu_inner q)).
+Proof. unfold fo_rebase. destruct (msb_set P (nout (fu_ord q))); auto. simpl. unfold blks. rewrite map_map. reflexivity. Qed.
+
+Lemma fo_loop_armed n q t w :
+  winv (fo_own q) None w -> fu_ok false (fu_inner q) -> NoDup (blks (groups (fu_inner q))) ->
+  rem (fu_inner q) < n ->
+  let '(q', sp, w') := fo_loop P n q t w in
+  NoDup (blks (groups (fu_inner q'))) /\ (sp = SPending -> Forall (Kg t w') (groups (fu_inner q'))).
+Proof.
+  revert q w. induction n as [|n IH]; intros q w Hw Hok Hnd Hlen; [lia|]. cbn [fo_loop].
+  pose proof (@fu_poll_next_spec P false (fu_inner q) t w Hw Hok) as H.
+  pose proof (@fu_poll_pending_all_armed false (fu_inner q) t w Hw Hok Hnd) as Ha.
+  destruct (fu_poll_next P false (fu_inner q) t w) as [[u sp] w1]. destruct H as (A & B & (L1 & L2 & L5)).
+  destruct Ha as [Hnd1 Ha].
+  pose proof (fo_rem Hok eq_refl) as Hr. pose proof (fo_rem B eq_refl) as Hr'.
+  destruct sp as [| |tk c]; cbn [fu_inner fu_ord].
+  - split; auto.
+  - split; auto; discriminate.
+  - destruct (L2 eq_refl) as [L3 L4].
+    destruct (Z.eqb (cidx c) (nout (fu_ord q))); [split; auto; discriminate|].
+    pose proof (winv_ord_park (fu_ord q) (cidx c) tk A) as Hp.
+    destruct (ord_park (fu_ord q) (cidx c) tk w1) as [o w2]. simpl in Hp.
+    apply (IH {| fu_inner := u; fu_ord := o |} w2); auto. simpl. lia.
+Qed.
+
+Theorem fo_poll_pending_all_armed q t w :
+  winv (fo_own q) None w -> fu_ok false (fu_inner q) -> NoDup (blks (groups (fu_inner q))) ->
+  let '(q', sp, w') := fo_poll_next P q t w in
+  NoDup (blks (groups (fu_inner q'))) /\ (sp = SPending -> Forall (Kg t w') (groups (fu_inner q'))).
+Proof.
+  intros Hw Hok Hnd. unfold fo_poll_next.
+  destruct (fo_rebase_inner P q) as (R1 & R2 & R3 & R4).
+  set (q1 := fo_rebase P q) in *.
+  assert (Hw1 : winv (fo_own q1) None w) by (unfold fo_own; rewrite R1; auto).
+  assert (Hnd1 : NoDup (blks (groups (fu_inner q1)))) by (rewrite R1; auto).
+  destruct (ord_try_release P (fu_ord q1)) as [[tk o]|] eqn:Hr.
+  - simpl. split; auto. discriminate.
+  - apply fo_loop_armed; auto.
+Qed.
+
 (** ** every reachable state: the groups of FuturesUnordered / MergeUnbounded own distinct blocks *)
 Definition nd (k : coll) : Prop :=
-  match k with CFu u | CMu u => NoDup (blks (groups u)) | _ => True end.
+  match k with
+  | CFu u | CMu u => NoDup (blks (groups u))
+  | CFo q => NoDup (blks (groups (fu_inner q)))
+  | _ => True
+  end.
+
+Lemma fo_from_list_nd h l w (f : fo -> fo) :
+  winv (cnt []) None w -> (forall q, fu_inner (f q) = fu_inner q) ->
+  nd (fst (let '(q, w0) := fo_from_list P h l w in (CFo (f q), w0))).
+Proof.
+  intros Hw Hf. unfold fo_from_list.
+  pose proof (@fu_from_list_nodup false h (index_children P l 0) w Hw) as Hx.
+  destruct (fu_from_list P false h (index_children P l 0) w) as [u w1]. cbn [fst nd]. rewrite Hf. exact Hx.
+Qed.
 
 Lemma build_nd t p inits ups w : winv (cnt []) None w -> nd (fst (build P t p inits ups w)).
 Proof.
@@ -509,9 +564,7 @@ Proof.
            | |- context [fub_from_list ?l ?w] => destruct (fub_from_list l w)
            | |- context [fub_new ?c ?w] => destruct (fub_new c w)
            | |- context [fob_from_list P ?l ?w] => destruct (fob_from_list P l w)
-           | |- context [fo_from_list P ?h ?l ?w] => destruct (fo_from_list P h l w)
            | |- context [fob_new P ?a ?b ?w] => destruct (fob_new P a b w) as [[?|] ?]
-           | |- context [fo_with_capacity P ?a ?b ?w] => destruct (fo_with_capacity P a b w) as [[?|] ?]
            | |- context [join_new ?a ?l ?w] => destruct (join_new a l w)
            end; cbn [nd fst]; auto.
   - pose proof (@fu_from_list_nodup false (lazy_hint p (mk_children inits)) (mk_children inits) w Hw) as Hx.
@@ -522,6 +575,12 @@ Proof.
     destruct (fu_from_list P true (lazy_hint p (mk_children inits)) (mk_children inits) w); exact Hx.
   - constructor.
   - pose proof (fu_with_capacity_nodup (p_cap p) w) as Hx. destruct (fu_with_capacity (p_cap p) w); exact Hx.
+  - (* FuturesOrdered from_iter, no input (possibly seeded) *)
+    apply fo_from_list_nd; auto. intros q. destruct (p_seed p); reflexivity.
+  - apply (@fo_from_list_nd _ _ _ (fun q => q)); auto.
+  - constructor.
+  - unfold fo_with_capacity, heap_cap_for.
+    pose proof (fu_with_capacity_nodup (p_cap p) w) as Hx. destruct (fu_with_capacity (p_cap p) w); exact Hx.
 Qed.
 
 Lemma do_push_nd try front c sc k w : cinv k w -> nd k -> nd (fst (do_push P try front c sc k w)).
@@ -536,7 +595,11 @@ Proof.
         | |- context [fu_push P ?m ?u ?c ?w] =>
             pose proof (@fu_push_nodup m u c w None Hw Hok Hnd) as Hx;
             destruct (fu_push P m u c w); exact Hx
-        | |- context [fo_push P ?f ?q ?c ?w] => destruct (fo_push P f q c w); exact I
+        | |- context [fo_push P ?f ?q ?c ?w] =>
+            unfold fo_push;
+            match goal with |- context [fu_push P false ?u ?c' ?w] =>
+              pose proof (@fu_push_nodup false u c' w None Hw Hok Hnd) as Hx;
+              destruct (fu_push P false u c' w); exact Hx end
         end.
 Qed.
 
@@ -554,6 +617,9 @@ Proof.
           | |- context [fu_poll_next P ?m ?u ?t ?w] =>
               pose proof (@fu_poll_pending_all_armed m u t w Hw Hok Hnd) as Hx;
               destruct (fu_poll_next P m u t w) as [[? ?] ?]; apply Hx
+          | |- context [fo_poll_next P ?q ?t ?w] =>
+              pose proof (@fo_poll_pending_all_armed q t w Hw Hok Hnd) as Hx;
+              destruct (fo_poll_next P q t w) as [[? ?] ?]; apply Hx
           end;
       match goal with
       | |- context [fub_poll_next P ?a ?b ?c ?d] => destruct (fub_poll_next P a b c d) as [[? ?] ?]
@@ -599,4 +665,20 @@ Proof.
   destruct H as [_ H]. intros Hsp g Hin Hlen. specialize (H Hsp). rewrite Forall_forall in H.
   destruct (H g Hin) as [Hz|Hk]; [congruence|exact Hk].
 Qed.
+(** the same for FuturesOrdered (its outer loop may poll the inner collection several times in
+    one call; the poll that ends the call with Pending has visited every group) *)
+Theorem fo_pending_arms_every_group ops q t i :
+  st_coll (reach P ops) = CFo q ->
+  let '(q', sp, w') := fo_poll_next P q t (begin_op i (st_world (reach P ops))) in
+  sp = SPending -> forall g, In g (groups (fu_inner q')) -> fub_len g <> 0 -> K (blk g) t w'.
+Proof.
+  intros Hc. pose proof (reachable_nd ops) as Hn. destruct (@reachable_Inv P HP ops) as [Hw Hok].
+  rewrite Hc in *. simpl in Hn, Hw, Hok.
+  assert (Hw' : winv (fo_own q) None (begin_op i (st_world (reach P ops)))) by (apply winv_begin_op; exact Hw).
+  pose proof (@fo_poll_pending_all_armed q t _ Hw' Hok Hn) as H.
+  destruct (fo_poll_next P q t (begin_op i (st_world (reach P ops)))) as [[q' sp] w'].
+  destruct H as [_ H]. intros Hsp g Hin Hlen. specialize (H Hsp). rewrite Forall_forall in H.
+  destruct (H g Hin) as [Hz|Hk]; [congruence|exact Hk].
+Qed.
+
 End WithParams.
